@@ -72,7 +72,7 @@ def run(ctx):
         r = ctx.model_check("exec", "MC_TxPool", "MC_TxPool.cfg", constants=sized, coverage=True,
                             timeout=ctx.pick(600, 1500), label="2 transfers of two sizes against every byte limit")
         ctx.check_coverage(r, ["Add", "Commit", "Candidate", "DropOld"], allow_zero=("CheckTxs", "HasTx"))
-        mid = dict(small, Values="{2}", Limits="{1}", MaxTs=2, MaxN=3, MaxPool=3, InitBal=3)
+        mid = dict(small, Values="{2}", Limits="{1}", MaxTs=1, MaxN=3, MaxPool=3, InitBal=3)
         r = ctx.model_check("exec", "MC_TxPool", "MC_TxPool.cfg", constants=mid, coverage=True,
                             timeout=ctx.pick(600, 1500), label="3 transfers of value 2, balance 3 (cumulative exhaustion)")
         ctx.check_coverage(r, ["Add", "Commit", "Candidate", "DropOld"], allow_zero=("CheckTxs", "HasTx"))
